@@ -16,9 +16,8 @@ PROPS = {
                  "request; guards translated by T1 (Gen.ku*), statement order pinned by 9 shape anchors; oracles derived from the "
                  "property / RFC 9001 section 6 (C04-forged-packet-changed-state, C04-packet-processed-twice, "
                  "C04-genuine-packet-rejected, C04-key-update-error-class, C04-old-keys-dropped-early, C04-old-keys-kept-too-long, "
-                 "C04-acked-with-old-keys); theorems over all request sequences (Props/C04_keyupd.lean)",
-        not_modelled="0-RTT keys sharing Timer::KeyDiscard (server side), an ACK-based confirmation of a local update (quinn has none: "
-                     "a local update counts as confirmed by the first packet received in the new phase), packet number expansion "
+                 "C04-acked-with-old-keys, C04-local-update-before-ack); theorems over all request sequences (Props/C04_keyupd.lean)",
+        not_modelled="0-RTT keys sharing Timer::KeyDiscard (server side), the ACK frame path itself (op ackd applies only its effect on largest_acked_packet: no RTT sample, PTO constant; an ACK of an unsent packet is refused by the executor), the unconfirmed-handshake guard of force_key_update (the component's connection has discarded its Handshake keys), packet number expansion "
                      "across key updates (component sends 4-byte numbers; Conn/RxPn.lean), header protection (identity in the component)",
     ),
     'C03': dict(
